@@ -51,7 +51,7 @@ pub struct Renderer {
     pub in_macro_body: bool,
 }
 
-const HOSTILE_BASE: &[&str] = &["c", "x ; y", "say \"hi\"", "it's", "a // b", "*/ not really", "@0 @1", "1, 2, 3", ".endif", "nop", "r16: .db 1", "gr\u{f6}\u{df}e \u{b5}s", "2 * n + 1", "**", ".endm .macro"];
+const HOSTILE_BASE: &[&str] = &["c", "was: /* ldi r16, 2", "/* open", "/*", "note: x", "mode: done", "lab: nop", "a:b::c", "see http://x.y/z", ":", "# not a directive", ". dot", "x ; y", "say \"hi\"", "it's", "a // b", "*/ not really", "@0 @1", "1, 2, 3", ".endif", "nop", "r16: .db 1", "gr\u{f6}\u{df}e \u{b5}s", "2 * n + 1", "**", ".endm .macro"];
 
 /// Comment texts that look like code to a careless scanner; the last ones are banners: long runs
 /// of characters that are operators or parentheses outside a comment.
